@@ -546,6 +546,7 @@ def run(repo: Repo, ctx) -> None:
     _r9(repo, ctx)
     _r10(repo, ctx)
     _r11(repo, ctx)
+    _r12(repo, ctx)
 
 
 OBJS = 'edb.schema.objects'
@@ -1061,3 +1062,40 @@ def _r11(repo: Repo, ctx) -> None:
            f'that type, and the schema is left with a dangling reference',
            f'{ab.module.rel()}:{outer[0].lineno}',
            sample='if not context.canonical')
+
+
+
+def _r12(repo: Repo, ctx) -> None:
+    """C04.R12 per-command guards kept in the command context are keyed by
+    the command, not by the name of its subject.  DeleteObject records that
+    it already expanded the deletion of its owned children
+    (`('delcanon', <key>)`); keyed by the object's *name* the record
+    outlives the object, and a second drop of a re-created same-named
+    object in the same context skips the cascade: its children stay behind
+    with a dangling owner."""
+    ctx.floor('C04.R12', 2)
+    n = 0
+    m = repo.module(DELTA)
+    for f in repo._funcs_of(m):
+        for c in ast.walk(f.node):
+            if isinstance(c, ast.Call) and isinstance(
+                    c.func, ast.Attribute) and c.func.attr in (
+                    'get_value', 'store_value') and c.args and isinstance(
+                    c.args[0], ast.Tuple) and c.args[0].elts and isinstance(
+                    c.args[0].elts[0], ast.Constant) and \
+                    c.args[0].elts[0].value == 'delcanon':
+                n += 1
+                key = [norm(e) for e in c.args[0].elts[1:]]
+                ok = key == ['self']
+                ctx.saw(f)
+                ctx.ob('C04.R12', f'{f.name}:delcanon-key@{c.func.attr}', ok,
+                       f'the "already canonicalised" guard of DeleteObject is '
+                       f'keyed by {key} instead of the command itself: a '
+                       f'later delete command for an object of the same '
+                       f'name (dropped, re-created and dropped again in one '
+                       f'context) finds the record and skips the deletion '
+                       f'of its owned children', f'{m.rel()}:{c.lineno}',
+                       sample=f"('delcanon', {', '.join(key)})")
+    if n < 2:
+        raise AnalysisError('C04.R12: the delcanon guard of DeleteObject '
+                            'not found')
